@@ -141,9 +141,10 @@ def run(tier, seed, replay=None):
                 prev = None
                 for k_, (Cm, u_, s__, v_) in enumerate(svd_rec):
                     r_ = Rk[k_ + 1]
-                    if not torch.equal(x.cores[k_], u_[:, :r_].reshape(Rk[k_], Nk[k_], r_)):
+                    close = lambda a_, b_: a_.shape == b_.shape and float((a_ - b_).abs().max() if a_.numel() else 0.0) <= 100 * htol * max(1e-300, float(b_.abs().max() if b_.numel() else 0.0))
+                    if not close(x.cores[k_], u_[:, :r_].reshape(Rk[k_], Nk[k_], r_)):
                         V.fail("correspondence(model/impl): core %d is not the reshaped kept left factor (sweep_cores)" % k_, desc, failing_input=False); break
-                    if prev is not None and not torch.equal(Cm, prev.reshape(Rk[k_] * Nk[k_], -1)):
+                    if prev is not None and not close(Cm, prev.reshape(Rk[k_] * Nk[k_], -1)):
                         V.fail("correspondence(model/impl): remainder of bond %d is not the reshaped diag(s) v of the previous bond (stage_next)" % k_, desc, failing_input=False); break
                     prev = torch.diag(s__[:r_]) @ v_[:r_, :]
                     uk = u_[:, :r_]
@@ -153,7 +154,7 @@ def run(tier, seed, replay=None):
                     if float((uk.conj().T @ Cm - prev).abs().pow(2).sum().sqrt()) > 100 * htol * cn + 1e-300:
                         V.fail("hypothesis spectrum_link: U^H C differs from diag(s) v [%s]" % family, dict(desc, bond=k_)); break
                 else:
-                    if not torch.equal(x.cores[-1], prev.reshape(Rk[-2], Nk[-1], 1)):
+                    if not close(x.cores[-1], prev.reshape(Rk[-2], Nk[-1], 1)):
                         V.fail("correspondence(model/impl): the last core is not the final remainder (sweep_cores)", desc, failing_input=False)
             # decisions: threshold passed to rank_chop, and the rank chosen, against the model
             is_op = shape is not None and isinstance(shape[0], tuple)
@@ -191,7 +192,7 @@ def run(tier, seed, replay=None):
         rank_decisions_agree=n_replay_ok, near_ties_skipped=n_skipped_tie, error_equals_sum_of_discarded_energies_checked=n_identity, sweeps_with_core_structure_and_hypotheses_checked=n_struct, known_findings_reproduced=V.known_hit,
         partial=["floating-point round-off and LAPACK's SVD are modelled as exact truncated SVDs (oracle hypotheses spectrum_link / orth_stages of tt_svd_error_bound); the identity "
                  "'squared error = sum of discarded energies' that the theorem derives is also measured on every case; the bridge 'chain of cores = recursive matrix reconstruction' is now a theorem "
-                 "(C01_sweep_cores_entry) and the relations it starts from (core k = reshaped kept factor, next remainder = diag(s) v, last core = final remainder) are compared bitwise with "
+                 "(C01_sweep_cores_entry) and the relations it starts from (core k = reshaped kept factor, next remainder = diag(s) v, last core = final remainder) are compared (to round-off: another order of the same floating-point operations is not a violation) with "
                  "the implementation's own SVD factors on every tensor case, the oracle hypotheses (orthonormal U, U^H C = S V) are measured there"])
     common.write_evidence(PID, tier, seed, cov, time.time() - t0, nviol, common.TRUSTED_BASE)
     return 1 if nviol else 0
